@@ -142,7 +142,8 @@ Definition float_limits (f : float_macros) (m : lmem) : lval :=
   | Lmax_exponent => LI (f_max_exp f) | Lmax_exponent10 => LI (f_max_10_exp f)
   | Lhas_infinity | Lhas_quiet_NaN | Lhas_signaling_NaN => LB true
   | Lhas_denorm => LI denorm_present | Lhas_denorm_loss => LB false
-  | Linfinity => LInf | Lquiet_NaN => LNaN | Lsignaling_NaN => LNaN
+  | Linfinity => LInf | Lquiet_NaN => LNaN false       (* TETL_BUILTIN_NAN*("") *)
+  | Lsignaling_NaN => LNaN true                           (* TETL_BUILTIN_NANS*("") *)
   | Ldenorm_min => X_TRUE_MIN f
   | Lis_iec559 => LB true | Lis_bounded => LB true | Lis_modulo => LB false
   | Ltraps => LB false | Ltinyness_before => LB false
